@@ -164,6 +164,8 @@ enum FailMode {
     BadReply,
     /// the restart bit stays set in the reply to the clear-restart write
     Stubborn,
+    /// answered with an IIN2 error bit (function not supported / parameter error)
+    Rejected,
 }
 
 async fn scenario(a: &ShardArgs, idx: u64) {
@@ -199,7 +201,11 @@ async fn scenario(a: &ShardArgs, idx: u64) {
         Some(1) => Kind::TimeSync(1),
         _ => Kind::TimeSync(2),
     };
-    let fail: Option<(Kind, FailMode)> = match r.below(10) {
+    let fail: Option<(Kind, FailMode)> = match r.below(14) {
+        10 => Some((Kind::Disable, FailMode::Rejected)),
+        11 => Some((Kind::Enable, FailMode::Rejected)),
+        12 => Some((Kind::Integrity, FailMode::Rejected)),
+        13 => Some((Kind::ClearRestart, FailMode::Rejected)),
         0 => Some((Kind::Disable, FailMode::Silent)),
         1 => Some((Kind::Integrity, FailMode::Silent)),
         2 => Some((Kind::Enable, FailMode::Silent)),
@@ -396,8 +402,29 @@ async fn scenario(a: &ShardArgs, idx: u64) {
                 body = vec![30, 1, 0, 0]; // range header without its stop octet
             }
         }
+        let mut iin2 = iin2;
+        let mut rejected = false;
+        if let Some((fk, FailMode::Rejected)) = &fail {
+            if *fk == kind && fail_left > 0 {
+                fail_left -= 1;
+                rejected = true;
+                iin2 |= *r.pick(&[ra::IIN2_NO_FUNC, ra::IIN2_PARAM_ERROR, ra::IIN2_OBJECT_UNKNOWN]);
+                body = vec![];
+                // a rejected READ is a failed integrity poll (retried with back-off); a rejected DISABLE / ENABLE / clear-restart
+                // is a final answer for this library (it warns and moves on) - the property constrains the delays of retries, not their existence
+                failing_reply = kind == Kind::Integrity;
+                if kind == Kind::ClearRestart {
+                    // the write was refused: the bit is still set
+                    restart_bit = true;
+                }
+            }
+        }
+        let iin1 = (if restart_bit { ra::IIN1_RESTART } else { 0 }) | (iin1 & !ra::IIN1_RESTART);
         let now = sim.now();
         sim.send_from(OUT, &ra::B::response(ra::FIR | ra::FIN | seq, false, iin1, iin2).raw(&body).done());
+        if rejected {
+            out::count("rejected_by_iin2_replies", 1);
+        }
         hist.push(format!("t={t} -> {kind:?} seq={seq} ; t={now} reply iin={iin1:02x}{iin2:02x}{}", if failing_reply { " (failing reply)" } else { "" }));
         log.push(Req { t, kind: kind.clone(), epoch: sim.epoch, failed_at: if failing_reply { Some(now) } else { None } });
         answered_count += 1;
